@@ -21,11 +21,13 @@ as rationals):
   polylog(2, z): Li2(1) = PI^2/6, Li2(-1) = -PI^2/12, Li2(1/2) = PI^2/12 - ln(2)^2/2; for x in [1/8, 15/16]
   Li2(x) = Li2(1/2) - RInt (ln(1-t)/t) (1/2) x and for x in [-6, -1/8] Li2(x) = Li2(-1) - RInt (ln(1-t)/t) (-1) x
   (proper integrals; precisions 15 and 53 in the quick tier, 113 only in the thorough tier: one such lemma costs 5-40 s CPU);
-  bernpoly(n, x), eulerpoly(n, x), n <= 80, at dyadic x in [-16, 16] (exact rational), at x in {0, 1/2, 1} (including the
-  exact zeros) and -- separate regime "near-zero" -- at the dyadic point next to a real root of the polynomial;
+  bernpoly(n, x), eulerpoly(n, x), n <= 80 (200 thorough), at dyadic x in [-16, 16] (some up to +-1000; exact rational), at
+  x in {0, 1/2, 1} (including the exact zeros) and -- separate regime "near-zero" -- at the dyadic point next to a real
+  root of the polynomial (n <= 11);
   Hurwitz zeta(-n, a) = -B_{n+1}(a)/(n+1) for dyadic a > 0 (exact mpf) and rational a = (p, q) (mpmath keeps the tuple as
   an exact mpq), zeta(2n, a) for integer a = 2..6 (zeta(2n) - sum_{j<a} j^-2n: Euler-Maclaurin branch) and for
-  a = m + 1/2 ((2^(2n) - 1) zeta(2n) - sum_{j<m} (j+1/2)^-2n), a as mpf and as (p, q);
+  a = m + 1/2 ((2^(2n) - 1) zeta(2n) - sum_{j<m} (j+1/2)^-2n), a as mpf and as (p, q); the points with a > 1 whose value
+  ~ a^-2n is below 2^-24 form their own regime (known finding: absolute stopping criterion);
   zeta(0, a, derivative=1) = ln Gamma(a) - ln(2 PI)/2 (Lerch) at integer and half-integer a (the only derivative values
   with a closed form in PI / ln);  lerchphi(z, 1, 1) = -ln(1-z)/z and lerchphi(z, 0, a) = 1/(1-z) for real |z| < 1.
 METAMORPHIC only (soundness lemmas lin2_violation / lin3_violation in /verif/coq_meta/Meta.v; a certified residual above
@@ -34,6 +36,10 @@ counted `consistent`):
   Li2(x) + Li2(1-x) = PI^2/6 - ln(x) ln(1-x) (0 < x < 1); Li2(1-2^k) + Li2(1-2^-k) = -(k ln 2)^2/2 (Landen);
   Li2(-2^k) + Li2(-2^-k) = -PI^2/6 - (k ln 2)^2/2 (inversion); polylog(s, x) + polylog(s, -x) = 2^(1-s) polylog(s, x^2)
   for integer s = 2..8 (the only coverage of polylog orders >= 3); z lerchphi(z, s, 1) = polylog(s, z), s = 2..6.
+KNOWN FINDINGS (genuine accuracy defects of the unchanged code, recorded in /verif/known_findings_B3.json, each confined to a
+kind with its own `regime` so that it masks nothing else): polylog(-n, z), n >= 2, summed as an alternating/rotating power
+series (z < 0 or complex, |z| <= 0.75 or >= 1.4); bernpoly(2, x) next to a root (Horner form without cancellation
+detection); Hurwitz zeta(2n, a), a > 1, when the value a^-2n is far below 1 (absolute stopping criterion in _hurwitz_em).
 NOT DECIDED: see NOT_DECIDED (zeta at generic real/complex s, derivatives, stieltjes, primezeta, siegeltheta, siegelz,
 riemannr, lerchphi and polylog at general parameters)."""
 import math
@@ -574,6 +580,23 @@ def r_hurwitz_neg(n, a):
     return v
 
 
+def g_hurwitz_even(half_, small):
+    """(n, a) with a = 2..6 (or a = m + 1/2, m = 0..3); `small`: the value ~ a^-2n is below 2^-24 (own regime: the absolute
+    stopping criterion of the Euler-Maclaurin code loses relative accuracy there), otherwise it is above"""
+    def gen(rng, p):
+        for _ in range(1000):
+            n = rng.choice([rng.randint(1, 5), rng.randint(6, 30)])
+            if half_:
+                m = rng.choice([1, 2, 3]) if small else rng.choice([0, 0, 1, 2, 3])
+                a = m + 0.5
+            else:
+                m = rng.randint(2, 6); a = m
+            if (2 * n * math.log2(a) > 24) == small:
+                return [n, m, rng.randint(0, 1)] if half_ else [n, m]
+        raise Skip("no (n, a)")
+    return gen
+
+
 def r_hurwitz_even_int(n, a):
     s = sum(Fraction(1, j ** (2 * n)) for j in range(1, a))
     return zeta_even(2 * n) - HC(s)
@@ -682,11 +705,14 @@ reg("eulerpoly_nearzero", "eulerpoly", lambda c, n, x: c.eulerpoly(n, M(c, x)), 
 reg("hurwitz_negint_mpf", "zeta(s,a)", lambda c, n, a: c.zeta(-n, M(c, a)), r_hurwitz_neg, g_hurwitz_neg_mpf, w=1.5, regime="s=-n dyadic a")
 reg("hurwitz_negint_pq", "zeta(s,a)", lambda c, n, a: c.zeta(-n, (a.numerator, a.denominator)), r_hurwitz_neg, g_hurwitz_neg_pq, w=1.5,
     regime="s=-n rational a")
-reg("hurwitz_even_int", "zeta(s,a)", lambda c, n, a: c.zeta(2 * n, a), r_hurwitz_even_int,
-    lambda rng, p: [rng.choice([rng.randint(1, 5), rng.randint(6, 20)]), rng.randint(2, 6)], w=1.2, regime="s=2n integer a")
-reg("hurwitz_even_half", "zeta(s,a)", c_hurwitz_even_half, r_hurwitz_even_half,
-    lambda rng, p: [rng.choice([rng.randint(1, 5), rng.randint(6, 30)]), rng.choice([0, 0, 1, 2, 3]), rng.randint(0, 1)], w=1.2,
+reg("hurwitz_even_int", "zeta(s,a)", lambda c, n, a: c.zeta(2 * n, a), r_hurwitz_even_int, g_hurwitz_even(False, False), w=1.2,
+    regime="s=2n integer a")
+reg("hurwitz_even_half", "zeta(s,a)", c_hurwitz_even_half, r_hurwitz_even_half, g_hurwitz_even(True, False), w=1.2,
     regime="s=2n half-integer a")
+SMALLV = "s=2n, a>1, value < 2^-24"
+reg("hurwitz_even_int_small", "zeta(s,a)", lambda c, n, a: c.zeta(2 * n, a), r_hurwitz_even_int, g_hurwitz_even(False, True), w=0.5,
+    regime=SMALLV)
+reg("hurwitz_even_half_small", "zeta(s,a)", c_hurwitz_even_half, r_hurwitz_even_half, g_hurwitz_even(True, True), w=0.4, regime=SMALLV)
 reg("zeta_deriv0", "zeta(s,a,1)", c_lerch_deriv0, r_lerch_deriv0,
     lambda rng, p: [rng.choice([2, 1, 3, 5, 6, 7, 8, rng.randint(9, 60)])], w=0.8, regime="derivative at s=0 (Lerch)", maxprec=400)
 # lerchphi closed forms
@@ -706,7 +732,7 @@ RULE = ("each evaluation = one call (metamorphic kinds: 2-3 calls) of the curren
 
 def run(rep, tier_, rng):
     TIER[0] = tier_
-    run_kinds(rep, K, tier_, rng, n_quick=130, n_thorough=1000, precs_quick=PRECS_QUICK, precs_thorough=PRECS_THOROUGH,
+    run_kinds(rep, K, tier_, rng, n_quick=140, n_thorough=1000, precs_quick=PRECS_QUICK, precs_thorough=PRECS_THOROUGH,
               assumptions=ASSUMPTIONS, rule=RULE, not_decided=NOT_DECIDED)
 
 
